@@ -10,7 +10,7 @@ use crate::tl::{self, *};
 
 pub const B_INT: [i32; 24] = [0, 1, -1, 2, -2, 7, -7, 31, 32, 33, -32, 0x7FFF, 0x8000, 0xFFFF, 0x10000, i32::MIN, i32::MIN + 1, i32::MAX, i32::MAX - 1, 3, 5, 64, -33, 46341];
 pub fn b_float() -> Vec<f32> {
-    vec![0.0, -0.0, 0.5, -0.5, 1.0, -1.0, 1.5, -1.5, f32::MAX, f32::MIN_POSITIVE, 1.0e-40, f32::INFINITY, f32::NEG_INFINITY, 1.0e20, 1.0e-20, 16777217.0, 2147483648.0, -2147483904.0, 0.1, 3.0]
+    vec![0.0, -0.0, 0.5, -0.5, 1.0, -1.0, 1.5, -1.5, f32::MAX, f32::MIN_POSITIVE, 1.0e-40, f32::INFINITY, f32::NEG_INFINITY, 1.0e20, 1.0e-20, 16777217.0, 2147483648.0, -2147483904.0, 0.1, 3.0, f32::NAN]
 }
 
 pub fn lit_int(x: i32) -> String { if x < 0 { format!("(-{})", (x as i64).unsigned_abs()) } else { x.to_string() } }
